@@ -50,6 +50,14 @@ fn main() {
     let a: Vec<String> = std::env::args().collect();
     let n: usize = a.get(1).and_then(|s| s.parse().ok()).unwrap_or(16);
     let seed: u64 = a.get(2).and_then(|s| s.parse().ok()).unwrap_or(0);
+    // "yield": the barrier yields instead of spinning (for runs pinned to fewer CPUs than threads)
+    let yielding = a.get(3).map_or(false, |s| s == "yield");
+    // "sleep": after the (yielding) barrier every thread sleeps a different 0..400 us, so that, pinned to
+    // fewer CPUs than threads, a timer wake-up preempts whichever thread is in the middle of its first
+    // call (and possibly of the CPU feature detection) and the woken thread makes its own first call
+    // while that one is off the CPU
+    let sleeping = a.get(3).map_or(false, |s| s == "sleep");
+    let yielding = yielding || sleeping;
     let msgs: Vec<Vec<u8>> = (0..n).map(message).collect();
     let pre = hv::scan::get_runtime_feature();
     // spin barrier: all threads leave within nanoseconds of each other
@@ -66,7 +74,14 @@ fn main() {
             let spins = if r.chance(1, 2) { 0 } else { r.below(if big { 2000 } else { 40 }) };
             ready.fetch_add(1, Ordering::SeqCst);
             while !go.load(Ordering::Acquire) {
-                std::hint::spin_loop();
+                if yielding {
+                    std::thread::yield_now();
+                } else {
+                    std::hint::spin_loop();
+                }
+            }
+            if sleeping {
+                std::thread::sleep(std::time::Duration::from_micros(r.below(400) as u64));
             }
             for _ in 0..spins {
                 std::hint::spin_loop();
@@ -78,7 +93,11 @@ fn main() {
         }));
     }
     while ready.load(Ordering::SeqCst) < n {
-        std::hint::spin_loop();
+        if yielding {
+            std::thread::yield_now();
+        } else {
+            std::hint::spin_loop();
+        }
     }
     go.store(true, Ordering::Release);
     let got: Vec<(u64, u64)> = hs.into_iter().map(|h| h.join().unwrap()).collect();
